@@ -13,7 +13,7 @@ ALL = set(range(1, 23))
 # (pieces used, length, stride)
 CONFIGS = {
     "quick": [(ALL, 3, 2), ({1, 3, 4, 5, 6, 7, 8, 9, 10, 11, 14, 16, 18}, 5, 9), ({1, 3, 4, 7, 14}, 7, 2)],
-    "thorough": [(ALL, 4, 1), ({1, 3, 4, 5, 6, 7, 8, 9, 10, 11, 14, 16, 18}, 6, 1), ({1, 3, 4, 7, 14, 10, 11}, 9, 1)],
+    "thorough": [(ALL, 4, 1), ({1, 3, 4, 5, 6, 7, 8, 9, 10, 11, 14, 16, 18}, 5, 1), ({1, 3, 4, 7, 14}, 9, 1), ({1, 3, 4, 7, 14, 10, 11, 16}, 7, 3)],
 }
 
 
